@@ -179,6 +179,10 @@ def contexts(tier):
             out.append((PatCtx("co:" + c.name, c.prefix, " ".join(c.pattern), c.suffix, c.classes), 0))
         else:
             out.append((Ctx("co:" + c.name, c.prefix, c.suffix, domain=c.domain), max(1, n - 1) if q else n))
+    # several parenthesised groups / type names in one expression: coordinates of different '(' tokens may coincide
+    cls = {"?V": ["x", "1"], "?O": ["+", "*", ","]}
+    for i, pat in enumerate(["x = ( T ) ?V ?O ( ?V ) ?O sizeof ( T ) ?O ( ?V ) ;", "x = sizeof ( T ) ?O ( ?V ) ?O ( T ) { ?V } ?O ( ?V ) ;", "if ( ( T ) ?V ) ( ?V ) ; else ( ( ?V ) ) ;"]):
+        out.append((PatCtx(f"co:parens{i}:{pat}", c05.FN, pat, ["}"], cls), 0))
     return out
 
 
@@ -211,17 +215,29 @@ def main():
             if p:
                 probs.append(("errloc:" + NUM.sub("#", p)[:60], p))
         if eng.tainted_decisions:
-            probs.append(("coordinate-dependent-branch", f"the parser branched on a coordinate ({eng.path_notes[:2]})"))
+            # the parser compared coordinates: parse the same tokens again under the canonical layout
+            # (distinct concrete positions) inside this path and require the same result, coordinates aside
+            rec["count"] = {"paths_with_coordinate_dependent_decisions": 1}
+            Lex2 = toklex.make_lexer_class(tpl, sym_coords=False, file_tags=False)
+            impl2 = D.run_parser(P, Lex2, tpl)
+            d = None
+            if impl2[0] != impl[0]:
+                d = f"{impl[0]} under this layout, {impl2[0]} with every token at a distinct position"
+            elif impl[0] == "ast":
+                d = tokharness.ast_diff(impl[1], impl2[1], coords=False)
+            if d:
+                probs.append(("layout-dependent-result", f"the result depends on token coordinates (the parser compared {eng.path_notes[:2]}): {d}"))
         if probs:
             m = eng.model()
             toks = tpl.witness(m)
             seen = set()
             rec["viol"] = []
+            xy = tpl.coords_witness(m)
             for sig, what in probs:
                 if sig in seen:
                     continue
                 seen.add(sig)
-                rec["viol"].append({"sig": sig, "what": what, "toks": toks, "kind": impl[0]})
+                rec["viol"].append({"sig": sig, "what": what, "toks": toks, "kind": impl[0], "xy": xy})
             rec["cls"] += "-COORD"
         return rec
 
@@ -235,9 +251,10 @@ def main():
     rp = checklib.Replayer()
     try:
         for sig, vs in sorted(cands.items()):
-            vs.sort(key=lambda v: (len(v["toks"]), str(v["toks"])))
+            # witnesses in which two tokens share a (line, column) first: those are the layouts a coordinate-dependent branch needs
+            vs.sort(key=lambda v: (len(set(v["xy"])) == len(v["xy"]), len(v["toks"]), str(v["toks"])))
             good = None
-            for v in vs[:3]:
+            for v in vs[: (10 if sig == "layout-dependent-result" else 3)]:
                 report.replayed += 1
                 ok, detail = replay(rp, v)
                 v["detail"] = detail
@@ -252,7 +269,8 @@ def main():
             if kf:
                 report.known_hits[kf.get("id", sig)] = kf["what"]
                 continue
-            report.violations.append({"sig": sig, "what": what, "replay": checklib.write_replay(PID, what, REPLAY.format(text=good["text"], must=sorted(MUST_HAVE)))})
+            body = (good["layout_code"] + "print(RESULT)\nsys.exit(0 if RESULT['same'] else 1)\n") if sig == "layout-dependent-result" else (good["replay_code"] + "print(RESULT)\nsys.exit(1 if RESULT['bad'] else 0)\n")
+            report.violations.append({"sig": sig, "what": what, "replay": checklib.write_replay(PID, what, body)})
     finally:
         rp.close()
     return report.finish(findings, required_witnesses=["ast", "ParseError"])
@@ -290,6 +308,7 @@ from pycparser.c_parser import CParser, ParseError
 from pycparser import c_ast
 import re
 text = {text!r}
+XY = {xy!r}      # (line, column) of token k; token k is the one lexed under file name f<k>.c
 MUST_HAVE = {must!r}
 bad = []
 lines = text.split("\\n")
@@ -304,9 +323,9 @@ def build(n):
         if cls in MUST_HAVE: bad.append([cls, "no coordinate"])
     else:
         k = tok_of(c)
-        if cls == "Pragma" and k is not None and c.line == 100 + k:
+        if cls == "Pragma" and k is not None:
             j = k
-        elif k is None or c.line != 100 + k or c.column != 3 + k:
+        elif k is None or k >= len(XY) or c.line != XY[k][0] or c.column != XY[k][1]:
             bad.append([cls, "not one token's file:line:column", str(c)])
         else:
             j = k
@@ -338,16 +357,60 @@ try:
     RESULT = {{"outcome": "ast", "bad": bad}}
 except ParseError as e:
     m = re.match(r"^f(\\d+)\\.c:(\\d+):(\\d+): ", str(e))
-    ok = bool(m) and int(m.group(2)) == 100 + int(m.group(1)) and int(m.group(3)) == 3 + int(m.group(1))
+    ok = bool(m) and int(m.group(1)) < len(XY) and [int(m.group(2)), int(m.group(3))] == XY[int(m.group(1))]
     RESULT = {{"outcome": "ParseError", "msg": str(e), "bad": [] if ok or re.match(r"^f\\d+\\.c: ", str(e)) else [["ParseError", str(e)]]}}
 '''
 REPLAY = REPLAY_CODE + "print(RESULT)\nsys.exit(1 if RESULT['bad'] else 0)\n"
 
 
+LAYOUT_DIFF = '''
+import sys, io
+from pycparser.c_parser import CParser
+def run(t):
+    try:
+        a = CParser().parse(t, "start.c")
+    except Exception as e:
+        return ("error", type(e).__name__)
+    b = io.StringIO(); a.show(buf=b, attrnames=True, nodenames=True); return ("ast", b.getvalue())
+a = run({plain!r}); b = run({laid!r})
+RESULT = {{"same": a == b, "plain": a[0], "laid_out": b[0]}}
+'''
+
+
+def layout_xy(toks, xy):
+    """every token on its own line at the solver's column, preceded by a linemarker giving the solver's line"""
+    out = []
+    i = 0
+    while i < len(toks):
+        t, v = toks[i]
+        line, col = xy[i]
+        out.append(f'# {line} "f{i}.c"')
+        if t == "PPPRAGMA":
+            s = "#pragma"
+            if i + 1 < len(toks) and toks[i + 1][0] == "PPPRAGMASTR":
+                s += " " + toks[i + 1][1]
+                i += 1
+            out.append(s)
+        else:
+            out.append(" " * (col - 1) + v)
+        i += 1
+    return "\n".join(out) + "\n"
+
+
 def replay(rp, v):
-    text = layout(v["toks"])
+    if v["sig"] == "layout-dependent-result":
+        plain = toklex.render(v["toks"])
+        laid = layout_xy(v["toks"], v["xy"])
+        v["text"] = laid
+        v["layout_code"] = LAYOUT_DIFF.format(plain=plain, laid=laid)
+        r = rp.ask(op="exec", code=v["layout_code"])
+        if not isinstance(r, dict) or "same" not in r:
+            return False, r
+        return (not r["same"]), f"parsing the same tokens under this layout gives a different result than on one line: {r}"
+    text = layout_xy(v["toks"], v["xy"])
     v["text"] = text
-    r = rp.ask(op="exec", code=REPLAY_CODE.format(text=text, must=sorted(MUST_HAVE)))
+    v["replay_code"] = REPLAY_CODE.format(text=text, must=sorted(MUST_HAVE), xy=[list(p) for p in v["xy"]])
+    r = rp.ask(op="exec", code=v["replay_code"])
     if not isinstance(r, dict) or "bad" not in r:
         return False, r
     return bool(r["bad"]), r["bad"][:3]
